@@ -32,11 +32,14 @@
 //!                                  (`retry_failed`: with the default retries and nobody racing the retry it must succeed);
 //!  * `both_committed_same_row`     a raw commit succeeded although a transaction committed since its read version had
 //!                                  deleted / updated one of the rows it deletes / updates;
-//!  * `duplicate_image`             a key is visible twice (old and new image of an updated row);
-//!  * `resurrected`                 a row deleted by a committed transaction is visible again;
+//!  * `duplicate_image`             a row this transaction deleted / replaced is still visible (old image next to the new one);
+//!  * `resurrected`                 a row killed by an earlier committed transaction is visible again;
 //!  * `lost_update`                 the table is not the latest table with this transaction's effect applied
-//!                                  (effect = rows killed / images written, computed from the scan of the read version; with
+//!                                  (effect = row images killed / written, computed from the scan of the read version; with
 //!                                  the default retries the effect re-computed on the latest version is accepted as well).
+//! Rows are identified by their image (key, v): every write of the generator uses a value that key never had.  Outside the
+//! property and only tagged (`double_insert_same_key`): two concurrent upserts that both INSERT the same absent key both
+//! commit - no row is modified twice, but the key is visible twice afterwards.
 
 use std::collections::{BTreeMap, BTreeSet};
 use std::panic::{catch_unwind, AssertUnwindSafe};
@@ -197,42 +200,60 @@ struct Obs {
     frags: String,
 }
 
-/// row-level effect of a transaction, computed from a scan: keys whose visible images die, and the images written
+/// row-level effect of a transaction, computed from a scan.  A row IMAGE is a (key, v) pair: every write of the generator
+/// produces a value never used before for that key, so images identify stored rows without looking at addresses.
 #[derive(Clone, Debug, PartialEq)]
 struct Effect {
-    killed: BTreeSet<i64>,
+    /// the visible images that die (deleted, or replaced by a new image)
+    killed: Vec<KV>,
+    /// the images written
     written: Vec<KV>,
+    /// keys inserted because no image of them was visible at the read version
+    inserted: Vec<i64>,
 }
 
 fn effect(at: &[KV], act: &Act) -> Effect {
-    let has = |k: i64| at.iter().any(|r| r.0 == k);
+    let images = |keys: &dyn Fn(i64) -> bool| -> Vec<KV> { at.iter().copied().filter(|r| keys(r.0)).collect() };
     match act {
-        Act::Del { keys, .. } | Act::FDel { keys, .. } => {
-            Effect { killed: keys.iter().copied().filter(|k| has(*k)).collect(), written: vec![] }
+        Act::Del { keys, .. } | Act::FDel { keys, .. } => Effect { killed: images(&|k| keys.contains(&k)), written: vec![], inserted: vec![] },
+        Act::Upd { keys, .. } => {
+            let killed = images(&|k| keys.contains(&k));
+            Effect { written: killed.iter().map(|r| (r.0, r.1 + 100)).collect(), killed, inserted: vec![] }
         }
-        Act::Upd { keys, .. } => Effect {
-            killed: keys.iter().copied().filter(|k| has(*k)).collect(),
-            written: at.iter().filter(|r| keys.contains(&r.0)).map(|r| (r.0, r.1 + 100)).collect(),
-        },
         Act::Mrg { rows, .. } | Act::MrgU { rows, .. } | Act::PMrg { rows, .. } => {
             let mut written = vec![];
+            let mut inserted = vec![];
             for (k, v) in rows {
-                let n = at.iter().filter(|r| r.0 == *k).count().max(1);
-                for _ in 0..n {
+                let n = at.iter().filter(|r| r.0 == *k).count();
+                if n == 0 {
+                    inserted.push(*k);
+                }
+                for _ in 0..n.max(1) {
                     written.push((*k, *v));
                 }
             }
-            Effect { killed: rows.iter().map(|r| r.0).filter(|k| has(*k)).collect(), written }
+            Effect { killed: images(&|k| rows.iter().any(|r| r.0 == k)), written, inserted }
         }
-        Act::Compact => Effect { killed: BTreeSet::new(), written: vec![] },
+        Act::Compact => Effect { killed: vec![], written: vec![], inserted: vec![] },
     }
 }
 
-fn apply(e: &Effect, latest: &[KV]) -> Vec<KV> {
-    let mut out: Vec<KV> = latest.iter().copied().filter(|r| !e.killed.contains(&r.0)).collect();
+/// multiset difference: remove one occurrence of every element of `b`; `None` when an element of `b` is missing
+fn minus(a: &[KV], b: &[KV]) -> Option<Vec<KV>> {
+    let mut out = a.to_vec();
+    for x in b {
+        let i = out.iter().position(|y| y == x)?;
+        out.remove(i);
+    }
+    Some(out)
+}
+
+/// the latest table with the effect applied; `None` when a killed image is not visible in it any more
+fn apply(e: &Effect, latest: &[KV]) -> Option<Vec<KV>> {
+    let mut out = minus(latest, &e.killed)?;
     out.extend(e.written.iter().copied());
     out.sort();
-    out
+    Some(out)
 }
 
 impl C04 {
@@ -570,7 +591,7 @@ impl Prop for C04 {
         // sorted scan of every version that was the latest after a step
         let mut snaps: BTreeMap<u64, Vec<KV>> = BTreeMap::new();
         // keys whose images the transaction that created a version killed (deleted / replaced)
-        let mut killed_at: BTreeMap<u64, BTreeSet<i64>> = BTreeMap::new();
+        let mut killed_at: BTreeMap<u64, Vec<KV>> = BTreeMap::new();
         // keys a committed transaction deleted (and nobody re-inserted since)
         let mut seen_version = 0u64;
         let mut n_stale_ok = 0usize;
@@ -734,16 +755,16 @@ impl Prop for C04 {
                     if let (Some(before), Some(at_read)) = (&before, &at_read) {
                         let stale_eff = effect(at_read, &act);
                         let fresh_eff = effect(before, &act);
-                        let since: BTreeSet<i64> = if read_version < seen_version {
+                        let since: Vec<KV> = if read_version < seen_version {
                             killed_at.range(read_version + 1..=seen_version).flat_map(|(_, s)| s.iter().copied()).collect()
                         } else {
-                            BTreeSet::new()
+                            vec![]
                         };
-                        let overlap: Vec<i64> = stale_eff.killed.intersection(&since).copied().collect();
+                        let overlap: Vec<KV> = stale_eff.killed.iter().copied().filter(|x| since.contains(x)).collect();
                         let want_stale = apply(&stale_eff, before);
                         let want_fresh = apply(&fresh_eff, before);
-                        let matches_stale = obs.scan == want_stale && overlap.is_empty();
-                        let matches_fresh = retrying && obs.scan == want_fresh;
+                        let matches_stale = want_stale.as_ref() == Some(&obs.scan) && overlap.is_empty();
+                        let matches_fresh = retrying && want_fresh.as_ref() == Some(&obs.scan);
                         if matches!(act, Act::Compact) {
                             if obs.scan != *before {
                                 fail("lost_update", format!("compaction changed the rows: {} -> {}", show_kvs(before), show_kvs(&obs.scan)), &mut res);
@@ -757,32 +778,30 @@ impl Prop for C04 {
                             if retrying && !matches_stale {
                                 res.tags.push(format!("retried:{name}"));
                             }
+                            // outside the property (no row is modified twice), recorded only: a key inserted by this
+                            // upsert was inserted by a concurrent one as well
+                            if eff.inserted.iter().any(|k| before.iter().any(|r| r.0 == *k)) {
+                                res.tags.push("double_insert_same_key".into());
+                            }
                         } else {
                             // classify
                             let want = if retrying { &want_fresh } else { &want_stale };
-                            let dup: Vec<i64> = obs
-                                .scan
-                                .windows(2)
-                                .filter(|w| w[0].0 == w[1].0)
-                                .map(|w| w[0].0)
-                                .filter(|k| before.iter().filter(|r| r.0 == *k).count() < 2 && want.iter().filter(|r| r.0 == *k).count() < 2)
-                                .collect();
-                            let own_deleted: BTreeSet<i64> =
-                                stale_eff.killed.iter().copied().filter(|k| !stale_eff.written.iter().any(|w| w.0 == *k)).collect();
-                            let back: Vec<i64> = obs
-                                .scan
-                                .iter()
-                                .map(|r| r.0)
-                                .filter(|k| (own_deleted.contains(k) && !retrying) || (!before.iter().any(|r| r.0 == *k) && !want.iter().any(|r| r.0 == *k)))
+                            // a killed image that is still visible next to what replaced it
+                            let still: Vec<KV> = stale_eff.killed.iter().copied().filter(|x| obs.scan.contains(x)).collect();
+                            // an image somebody killed, gone from the latest version, visible again
+                            let back: Vec<KV> = killed_at
+                                .values()
+                                .flat_map(|s| s.iter().copied())
+                                .filter(|x| !before.contains(x) && obs.scan.contains(x) && !stale_eff.written.contains(x) && !fresh_eff.written.contains(x))
                                 .collect();
                             if !retrying && !overlap.is_empty() {
-                                fail("both_committed_same_row", format!("committed although keys {overlap:?} were deleted / updated by transactions committed after v{read_version}; table {}", show_kvs(&obs.scan)), &mut res);
-                            } else if !dup.is_empty() {
-                                fail("duplicate_image", format!("keys {dup:?} are visible twice: {}", show_kvs(&obs.scan)), &mut res);
+                                fail("both_committed_same_row", format!("committed although the rows {} were deleted / updated by transactions committed after v{read_version}; table {}", show_kvs(&overlap), show_kvs(&obs.scan)), &mut res);
                             } else if !back.is_empty() {
-                                fail("resurrected", format!("deleted keys {back:?} are visible: {}", show_kvs(&obs.scan)), &mut res);
+                                fail("resurrected", format!("rows {} killed by a committed transaction are visible again: {}", show_kvs(&back), show_kvs(&obs.scan)), &mut res);
+                            } else if !retrying && !still.is_empty() {
+                                fail("duplicate_image", format!("rows {} killed by this transaction are still visible: {}", show_kvs(&still), show_kvs(&obs.scan)), &mut res);
                             } else {
-                                fail("lost_update", format!("table {} but the latest table {} with this transaction's effect is {}", show_kvs(&obs.scan), show_kvs(before), show_kvs(want)), &mut res);
+                                fail("lost_update", format!("table {} but the latest table {} with this transaction's effect is {}", show_kvs(&obs.scan), show_kvs(before), want.as_deref().map(show_kvs).unwrap_or_else(|| "undefined (a row it kills is gone)".into())), &mut res);
                             }
                             killed_at.insert(obs.version, stale_eff.killed.clone());
                         }
